@@ -1,6 +1,7 @@
 import VibeProof.Model.Rel
 import VibeProof.Model.Expr
 import VibeProof.Model.Sql
+import VibeProof.Generated.Consts
 /-
 C06 — Predicates partition rows consistently under three-valued logic.
 
@@ -222,6 +223,88 @@ theorem C06_sql_partition (e : Expr) (rows : List Row) (tv : Row → TV)
   · intro r hr; exact toTV_tv _ _ (h r hr)
   · intro r hr; exact toTV_tv _ _ (C06_sql_not e r _ (h r hr))
   · intro r hr; exact toTV_tv _ _ (C06_sql_is_null e r _ (h r hr))
+
+/-! ### `literal op column` ≡ `column op' literal`: the mirrored comparison, and the tables in the code -/
+
+/-- the comparison that holds for `(b, a)` exactly when `op` holds for `(a, b)` -/
+def mirror : BinOp → BinOp
+  | .lt => .gt | .gt => .lt | .le => .ge | .ge => .le | op => op
+
+def isCmp : BinOp → Bool
+  | .eq | .ne | .lt | .le | .gt | .ge => true
+  | _ => false
+
+theorem cmp_swap (a b : Value) : Value.cmp? b a = (Value.cmp? a b).map Ordering.swap := by
+  cases a <;> cases b <;> simp [Value.cmp?]
+  · exact Std.OrientedOrd.eq_swap
+  · exact Std.OrientedOrd.eq_swap
+  · exact Std.OrientedOrd.eq_swap
+
+theorem cmpOp_mirror (op : BinOp) (h : isCmp op = true) (o : Ordering) :
+    cmpOp (mirror op) o.swap = cmpOp op o := by
+  cases op <;> simp [isCmp] at h <;> cases o <;> rfl
+
+def cmpEval (op : BinOp) (a b : Value) : Except Err Value :=
+  match a, b with
+  | .null, _ => .ok .null
+  | _, .null => .ok .null
+  | x, y =>
+    match Value.cmp? x y with
+    | some o => .ok (.bool (cmpOp op o))
+    | none => .error .typeMismatch
+
+theorem evalBin_cmp (op : BinOp) (h : isCmp op = true) (a b : Value) : evalBin op a b = cmpEval op a b := by
+  cases op <;> simp [isCmp] at h <;> rfl
+
+/-- for every pair of values and every comparison operator: `a op b` evaluates exactly as
+`b (mirror op) a` — what allows `5 <= col` to be pushed as `col >= 5` -/
+theorem C06_comparison_mirror (op : BinOp) (h : isCmp op = true) (a b : Value) :
+    evalBin op a b = evalBin (mirror op) b a := by
+  have hm : isCmp (mirror op) = true := by cases op <;> simp [isCmp] at h <;> rfl
+  rw [evalBin_cmp op h, evalBin_cmp (mirror op) hm]
+  unfold cmpEval
+  cases a <;> cases b <;> try rfl
+  all_goals
+    simp only []
+    rw [cmp_swap]
+    generalize Value.cmp? _ _ = oc
+    cases oc <;> simp
+    rename_i o
+    cases op <;> simp [isCmp] at h <;> cases o <;> rfl
+
+/-! the operator tables of the columnar predicate extractors, as extracted from the source -/
+
+/-- `BinaryOperator` variant name → comparison -/
+def opOfName : String → Option BinOp
+  | "LessThan" => some .lt | "GreaterThan" => some .gt
+  | "LessThanOrEqual" => some .le | "GreaterThanOrEqual" => some .ge
+  | "Equal" => some .eq | "NotEqual" => some .ne
+  | _ => none
+
+/-- a table is right when every row maps operator `op` to the predicate `col (f op) lit` -/
+def tableOk (f : BinOp → BinOp) (t : List (String × String)) : Bool :=
+  t.all (fun p => match opOfName p.1, opOfName p.2 with
+    | some a, some b => b == f a
+    | _, _ => false)
+
+def tablesOk (ts : List (String × List (String × String))) : Bool :=
+  ts.all (fun kt =>
+    if kt.1 == "direct" then tableOk id kt.2
+    else if kt.1 == "reversed" then tableOk mirror kt.2
+    else false)
+
+/-- every operator table in select/columnar/filter.rs (AND-only and AND/OR extractors, both operand
+orders) maps `column op literal` to the same comparison and `literal op column` to the mirrored one;
+together with `C06_comparison_mirror` the extracted predicate means what the WHERE clause means.
+A table row edited in the source breaks this `decide`. -/
+theorem C06_columnar_operator_tables :
+    tablesOk Generated.c06ColumnarOpTables = true ∧
+    (Generated.c06ColumnarOpTables.filter (fun kt => kt.1 == "direct")).length ≥ 1 ∧
+    (Generated.c06ColumnarOpTables.filter (fun kt => kt.1 == "reversed")).length ≥ 1 := by
+  decide
+
+/-- what a wrong row looks like: `literal <= column` pushed as `column > literal` -/
+example : tablesOk [("reversed", [("LessThanOrEqual", "GreaterThan")])] = false := by decide
 
 /-- non-vacuity: a table on which a predicate takes all three truth values -/
 example : let p : Nat → TV := fun n => if n = 0 then u else if n % 2 = 0 then t else f
